@@ -434,6 +434,20 @@ func cmdHdrMerge(o *Out, line string, f []string) {
 		if dropped != want || a.TotalCount() != aBefore+bcopy.TotalCount()-want {
 			o.violation(line, "dropped count of merge is not exact", map[string]int64{"dropped": dropped, "want": want})
 		}
+		// ... and what is not dropped lands where recording it would put it: the union, with every value of
+		// the argument replaced by the lower end of its range there
+		u := hdrhist.New(mnA, mxA, sA)
+		for _, v := range va {
+			_ = u.RecordValue(v)
+		}
+		for _, bar := range bcopy.Distribution() {
+			if bar.Count != 0 {
+				_ = u.RecordValues(bar.From, bar.Count)
+			}
+		}
+		if !a.Equals(u) {
+			o.violation(line, "merge across configurations differs from recording the argument's values", map[string]int64{"dropped": dropped})
+		}
 	}
 }
 
@@ -539,6 +553,14 @@ func genMultiset(rng *rand.Rand, mx int64, n int) []int64 {
 	return vs
 }
 
+func scaleInts(vs []int64, k int64) []int64 {
+	out := make([]int64, len(vs))
+	for i, v := range vs {
+		out[i] = v * k
+	}
+	return out
+}
+
 func hdrStat(o *Out, rng *rand.Rand, thorough bool, _ []string) {
 	ncases := 250
 	if thorough {
@@ -546,8 +568,11 @@ func hdrStat(o *Out, rng *rand.Rand, thorough bool, _ []string) {
 	}
 	for i := 0; i < ncases; i++ {
 		s := 1 + rng.Intn(3)
-		mn := int64(rng.Intn(3))
+		mn := []int64{0, 1, 2, 0, 1, 2, 3, 8, 10, 100, 1000}[rng.Intn(11)]
 		mx := int64(1) << uint(3+rng.Intn(18))
+		if mx < 2*mn+2 {
+			mx = 2*mn + 2 + int64(rng.Intn(1000))
+		}
 		if rng.Intn(2) == 0 {
 			mx += int64(rng.Intn(100))
 		}
@@ -577,15 +602,28 @@ func hdrStat(o *Out, rng *rand.Rand, thorough bool, _ []string) {
 
 		if len(vs) > 0 {
 			cut := rng.Intn(len(vs) + 1)
-			mxA, sA := mx, s
-			if rng.Intn(3) == 0 {
+			mnA, mxA, sA := mn, mx, s
+			switch rng.Intn(4) {
+			case 0:
 				mxA = mx / int64(2+rng.Intn(6))
 				if mxA < 2*mn+2 {
 					mxA = 2*mn + 2
 				}
 				sA = 1 + rng.Intn(3)
+			case 1:
+				// the same shape at another unit magnitude: lowest and highest scaled by a power of two
+				k := uint(1 + rng.Intn(4))
+				if mn == 0 {
+					mnA, mxA = 1<<k, mx<<k
+				} else {
+					mnA, mxA = mn<<k, mx<<k
+				}
+				if rng.Intn(2) == 0 { // ... in the other direction
+					run(o, fmt.Sprintf("hdr-merge %d %d %d | %s | %d %d %d | %s", mn, mx, s, joinInts(vs[:cut]), mnA, mxA, sA, joinInts(scaleInts(vs[cut:], int64(1)<<k))))
+					mnA, mxA = mn, mx
+				}
 			}
-			run(o, fmt.Sprintf("hdr-merge %d %d %d | %s | %d %d %d | %s", mn, mxA, sA, joinInts(vs[:cut]), mn, mx, s, joinInts(vs[cut:])))
+			run(o, fmt.Sprintf("hdr-merge %d %d %d | %s | %d %d %d | %s", mnA, mxA, sA, joinInts(vs[:cut]), mn, mx, s, joinInts(vs[cut:])))
 		}
 		run(o, fmt.Sprintf("hdr-import %d %d %d | %s", mn, mx, s, joinInts(vs)))
 	}
